@@ -22,12 +22,13 @@ use std::sync::{atomic::{AtomicU32, Ordering::SeqCst}, Arc, Mutex};
 use std::task::Poll;
 
 #[derive(Clone, Debug)]
-pub struct Cfg { pub kind: Kind, pub n: usize, pub m: usize, pub steady: usize, pub entries: Vec<Entry>, pub per_prod: u32, pub churns: u32, pub churn_polls: u32, pub hold: Hold, pub churners: usize, pub drain: bool }
+pub struct Cfg { pub kind: Kind, pub n: usize, pub m: usize, pub steady: usize, pub entries: Vec<Entry>, pub per_prod: u32, pub churns: u32, pub churn_polls: u32, pub hold: Hold, pub churners: usize, pub drain: bool, pub handover: bool }
 impl Cfg {
     pub fn json(&self) -> J {
         J::obj().with("kind", J::s(self.kind.name())).with("N", J::i(self.n as i64)).with("M", J::i(self.m as i64)).with("steady_listeners", J::i(self.steady as i64))
             .with("producers", J::Arr(self.entries.iter().map(|e| J::s(e.name())).collect())).with("events_per_producer", J::i(self.per_prod as i64))
             .with("listeners_created_and_dropped", J::i(self.churns as i64)).with("polls_per_churned_listener", J::i(self.churn_polls as i64)).with("churn_threads", J::i(self.churners as i64)).with("churned_listeners_poll_until_empty_before_the_drop", J::Bool(self.drain)).with("hold", J::s(format!("{:?}", self.hold)))
+            .with("handover_mode", J::Bool(self.handover))
     }
 }
 
@@ -37,21 +38,32 @@ pub const PAUSE_SITES: &[u32] = &[rv::SM_SYNC_LOCKED, rv::SM_SYNC_EACH_ENTRY, rv
     // (inside a consume: a listener's poll -- and whatever a drop does with the listener's queue, e.g. discarding what was left unconsumed)
     rv::AM_CONSUME_AFTER_RESERVE, rv::AM_CONSUME_AFTER_READ, rv::FS_CONSUME_LOCKED, rv::FS_CONSUME_AFTER_READ];
 
+/// what the drop of a listener goes through (streams manager, the listener's own queue)
+pub const DROP_SITES: &[u32] = &[rv::SM_DROPPED_AFTER_WAKER, rv::SM_DROPPED_AFTER_COUNTERS, rv::SM_DROPPED_AFTER_VACANT, rv::SM_SYNC_LOCKED, rv::SM_SYNC_EACH_ENTRY, rv::SM_SYNC_EACH_SENTINEL,
+    rv::SYNC_UNLOCK, rv::AM_CONSUME_AFTER_RESERVE, rv::AM_CONSUME_AFTER_RESERVE, rv::AM_CONSUME_AFTER_READ, rv::FS_CONSUME_LOCKED, rv::FS_CONSUME_LOCKED, rv::FS_CONSUME_AFTER_READ];
+
 pub fn draw_cfg(rng: &mut Rng, only: Option<&str>, lane: Lane) -> Cfg {
     let kinds: Vec<Kind> = chan::MULTI_KINDS.iter().copied().filter(|k| only.map(|o| k.name() == o).unwrap_or(true)).collect();
     let kind = *rng.pick(&kinds);
     let cfgs: Vec<(usize, usize)> = chan::cfgs_for(kind, false).into_iter().filter(|c| c.1 >= 4 && (c.0 == 0 || c.0 >= 4)).collect();
-    let (n, m) = *rng.pick(&cfgs);
+    let (mut n, mut m) = *rng.pick(&cfgs);
+    if n == 4 && rng.chance(1, 2) { n = 16; m = 4 }      // (room for more events: more churn per run)
     let steady = 2 + rng.below((m - 2).min(2) as u64) as usize;
     let mut nprod = 1 + rng.below(2) as usize;
     let mut per_prod = 2 + rng.below(3) as u32;
     if lane == Lane::Free && (kind.is_pooled() || kind == Kind::MultiMmap) { per_prod = 50 + rng.below(400) as u32 }
     if kind.never_rejects() && n > 0 { while per_prod as usize * nprod > n { if per_prod > 1 { per_prod -= 1 } else { nprod -= 1 } } }
+    let handover = steady + 2 <= m && rng.chance(1, 3);
+    if handover && n > 0 && n <= 8 { nprod = 1; per_prod = 1 + rng.below(2) as u32 }      // (room for the events the churn threads send themselves)
     let mut es = entries_for(kind); es.retain(|e| *e != Entry::SendAsyncSuspended);
     let entries: Vec<Entry> = (0..nprod).map(|_| *rng.pick(&es)).collect();
-    let churners = if steady + 2 <= m && rng.chance(1, 2) { 2 } else { 1 };
-    let drain = rng.chance(1, 2);
-    Cfg { kind, n, m, steady, entries, per_prod, churns: 1 + rng.below(if lane == Lane::Free { 12 } else { 3 }) as u32, churn_polls: rng.below(4) as u32, hold: Hold::Release, churners, drain }
+    let mut churners = if steady + 2 <= m && rng.chance(1, 2) { 2 } else { 1 };
+    let mut drain = rng.chance(1, 2);
+    // hand-over mode: two churn threads whose listeners send events themselves right after their creation returned (sends that lie within the listener's lifetime
+    // for sure) and poll until empty before the drop; the first thread's drops can be held back at any of their steps (marked region, targeted pause) while the second
+    // thread goes through drop / create cycles -- so that a listener is created on the stream id that a drop still in progress has just given back
+    if handover { churners = 2; drain = true }
+    Cfg { kind, n, m, steady, entries, per_prod, handover, churns: if handover { 2 } else { 1 } + rng.below(if lane == Lane::Free { 12 } else { 3 }) as u32, churn_polls: if handover { rng.below(2) } else { rng.below(4) } as u32, hold: Hold::Release, churners, drain }
 }
 
 #[derive(Default)]
@@ -71,7 +83,11 @@ pub fn one_run(cfg: &Cfg, rc: &RunCfg, acc: &mut Acc) -> (Option<J>, u64, bool) 
     let mut strms: Vec<_> = (0..cfg.steady).map(|_| ch.create_stream()).collect();
     if rc.lane == Lane::Free { for s in strms.iter_mut() { crate::drive::preregister_noop(s) } }
     let clogs: Vec<Arc<ConsLog>> = (0..cfg.steady).map(|_| Arc::new(ConsLog::default())).collect();
-    let plogs: Vec<Arc<ProdLog>> = cfg.entries.iter().map(|_| Arc::new(ProdLog::default())).collect();
+    // (the producers' logs, then -- hand-over mode -- one per churn thread for the events it sends itself)
+    let plogs: Vec<Arc<ProdLog>> = (0..cfg.entries.len() + if cfg.handover { cfg.churners } else { 0 }).map(|_| Arc::new(ProdLog::default())).collect();
+    let nprod = cfg.entries.len();
+    // events the churn threads may send themselves: the Arc kinds wait when a listener's queue is full and the pooled kinds panic, so the total stays within the buffer
+    let self_send_budget = Arc::new(AtomicU32::new(if !cfg.handover { 0 } else if cfg.n == 0 { 8 } else { (cfg.n as u32).saturating_sub(cfg.per_prod * nprod as u32 + 1) }));
     let churn = Arc::new(ChurnLog::default());
     let done = Arc::new(AtomicU32::new(0));
     let n_wait = cfg.entries.len() as u32 + cfg.churners as u32;
@@ -84,15 +100,33 @@ pub fn one_run(cfg: &Cfg, rc: &RunCfg, acc: &mut Acc) -> (Option<J>, u64, bool) 
         let d = done.clone();
         bodies.push(Box::new(move || { let _g = OnExit(Some(move || { d.fetch_add(1, SeqCst); })); inner() }));
     }
-    for _churner in 0..cfg.churners {
+    for churner in 0..cfg.churners {
         let (ch, d, churn, cfg2, lane) = (ch.clone(), done.clone(), churn.clone(), cfg.clone(), rc.lane);
+        let my_log = if cfg.handover { Some(plogs[nprod + churner].clone()) } else { None };
+        let (budget, seed) = (self_send_budget.clone(), rc.seed);
         bodies.push(Box::new(move || {
             let _g = OnExit(Some(move || { d.fetch_add(1, SeqCst); }));
+            let _ps = my_log.as_ref().map(crate::drive::panic_stamp);
             let w = chan::noop_waker();
+            let mut x = mix(seed, 0xC17 + churner as u64) | 1;
+            let mut next = move || { x ^= x << 13; x ^= x >> 7; x ^= x << 17; x >> 20 };
+            let mut sent = 0u64;
             for _ in 0..cfg2.churns {
                 let t0 = stamp(); let mut s = ch.create_stream(); let t1 = stamp();
                 churn.spans.lock().unwrap().push((t0, t1)); churn.windows.lock().unwrap().push((t0, t1));
                 sched::op_done();
+                if let Some(log) = &my_log {
+                    // events of my own, sent while my listener exists: it must yield them (it polls until empty before it goes)
+                    for _ in 0..1 + next() % 2 {
+                        if budget.fetch_update(SeqCst, SeqCst, |b| b.checked_sub(1)).is_err() { break }
+                        sent += 1;
+                        crate::drive::send_logged(&*ch, Entry::Send, ((nprod as u64 + churner as u64 + 1) << shift) | sent, log);
+                        sched::op_done();
+                    }
+                    // (a drop held back on another thread goes on now, in some of the runs: what it still does concerns a listener that is no longer registered)
+                    if next() % 2 == 0 { sched::resume_paused(300); }
+                    if lane == Lane::Free { for _ in 0..next() % 4 { std::thread::yield_now() } } else { for _ in 0..next() % 6 { sched::point() } }
+                }
                 let mut got = Vec::new();
                 if lane == Lane::Free { if let Poll::Ready(Some(it)) = s.poll(&w) { got.push(it.id); drop(it) } }
                 for _ in 0..cfg2.churn_polls { if let Poll::Ready(Some(it)) = s.poll(&w) { got.push(it.id); drop(it) } sched::op_done() }
@@ -104,7 +138,9 @@ pub fn one_run(cfg: &Cfg, rc: &RunCfg, acc: &mut Acc) -> (Option<J>, u64, bool) 
                     lifetime = Some((t1, td));
                 }
                 sched::site_log_start();
+                sched::set_mark(true);
                 let t2 = stamp(); drop(s); let t3 = stamp();
+                sched::set_mark(false);
                 let log = sched::site_log_take(); sched::site_log_stop();
                 // the drop may interfere with a concurrent fan-out until the live-listener list has been rewritten: up to the first hook site hit after the last
                 // streams-manager site of the operation (the whole operation if nothing follows, as on the unchanged tree)
@@ -221,6 +257,12 @@ fn single(args: &Args, acc: &mut Acc, seed: u64, verbose: bool) {
     let cfg = draw_cfg(&mut rng, args.only.as_deref(), args.lane);
     let nthreads = cfg.steady + cfg.entries.len() + cfg.churners;
     let mut rc = match args.lane {
+        // hand-over mode, 3 runs of 4: the first churn thread is held back at a step of one of its drops
+        Lane::Ser if cfg.handover && rng.chance(3, 4) => {
+            let mut rc = RunCfg::ser(seed, sched::Strategy::PauseAt { p_pct: *rng.pick(&[20, 50]), tid: cfg.steady + cfg.entries.len(), site: *rng.pick(DROP_SITES), nth: 1 + rng.below(3) as u32, budget: 5000 });
+            rc.pause_marked_only = true;
+            rc
+        }
         Lane::Ser => RunCfg::ser(seed, draw_strategy(&mut rng, nthreads, PAUSE_SITES, 300)),
         Lane::Free => RunCfg::free(seed, rng.below(3) as u8),
     };
